@@ -453,9 +453,25 @@ class Enum(Node):
         return self.cls
 
     def valid(self, hd=False):
-        return st.sampled_from([val for (val, _) in self.by_value])
+        vals = [val for (val, _) in self.by_value]
+        if not hd and any(type(x) is tuple for x in vals):
+            vals = vals + [list(x) for x in vals if type(x) is tuple] + [[[1], 2], [{}]]
+        return st.sampled_from(vals)
 
     def ref(self, v):
+        if is_seq(v) and any(type(val) is tuple for (val, _) in self.by_value):
+            # members whose value is a tuple: the value type is a sequence of anything, so sequence data denotes tuple(data)
+            try:
+                tv = tuple(v)
+                hash(tv)
+            except TypeError:
+                return Rej('not a member value (unhashable)')
+            for (val, m) in self.by_value:
+                if type(val) is tuple and len(val) == len(tv) and all(type(a) is type(b) and a == b for (a, b) in zip(tv, val)):
+                    return Acc(m)
+            if any(type(val) is tuple and tv == val for (val, _) in self.by_value):
+                return Unspec('value == a member value of another type')
+            return Rej('not a member value')
         if is_seq(v) or is_map(v) or isinstance(v, bytearray):
             return Rej('not a member value') if not isinstance(v, bytearray) else Unspec('bytearray vs bytes member value')
         exact_m = None
